@@ -21,7 +21,7 @@ TIE_THEOREM = "Relic.Props.C13.trace_shape_sound (model Relic.Model.FS vs strace
 RULE = ("exhaustive over system-call boundaries: strategies {atomicfile.WriteFile, signers.fileProducer.Apply whole-file, "
         "fileProducer.Apply binpatch -> PatchSet.applyRewrite, atomicfile.WriteInPlace+WriteAt+Truncate+Commit, msiTransformer.Apply "
         "on functest/packages/dummy.msi, pgpTransformer.Apply detached / clearsign merge / inline merge} x destination "
-        "{pre-existing, absent}: one strace dry run (trace -> Lean: atomicShape, invariant at every prefix, model final listing = "
+        "{pre-existing, absent, symbolic link to an existing file}: one strace dry run (trace -> Lean: atomicShape, invariant at every prefix, model final listing = "
         "real listing), then SIGKILL injected on entry of EVERY mutating call of the output phase (creating openat, write, pwrite64, "
         "copy_file_range, ftruncate, fchmod, close, unlinkat, renameat) with the directory compared to the model state of the completed "
         "calls and to the property (dest = old or new, still present if it was, input unchanged); errno injection (ENOSPC on "
@@ -283,6 +283,11 @@ class Env:
         open(os.path.join(d, INPUT), "wb").write(inp)
         if destmode == "exists":
             open(os.path.join(d, DEST), "wb").write(OLD)
+        elif destmode == "symlink":
+            # the output path is a symbolic link to an existing regular file (kept outside the directory): the path
+            # must go on holding the old content until it holds the complete new content, like any other destination
+            open(d + ".target", "wb").write(OLD)
+            os.symlink(d + ".target", os.path.join(d, DEST))
         before = listing(d)
         tr = d + ".trace"
         cmd = ["strace", "-f", "-o", tr, "-s", "16777216", "-xx", "-e", "trace=" + TRACE_SET]
@@ -294,6 +299,8 @@ class Env:
                "trace": parse_trace(tr, d), "dir": d}
         shutil.rmtree(d, ignore_errors=True)
         os.remove(tr)
+        if destmode == "symlink":
+            os.remove(d + ".target")
         return res
 
 
@@ -356,7 +363,7 @@ def run(ctx):
     findings, samples = [], []
     stats = Counter()
     branches = Counter()
-    scen = [(s, dm) for s in strategies + controls for dm in ("exists", "absent")]
+    scen = [(s, dm) for s in strategies + controls for dm in ("exists", "absent")] + [(s, "symlink") for s in strategies]
     only = None
     if ctx.get("replay_ops") is not None:
         only = []
@@ -513,7 +520,7 @@ def run(ctx):
         if bad:
             findings.append(Finding("counterexample", TIE, thm, op,
                                     "dest in {old %s, new %s}, present if it was, input unchanged, no temp file after a handled error"
-                                    % (sig(OLD) if dm == "exists" else "absent", sig(new) if new is not None else "?"),
+                                    % (sig(OLD) if dm in ("exists", "symlink") else "absent", sig(new) if new is not None else "?"),
                                     "%s; directory: %s (rc=%s)" % (" ".join(bad), show(r["after"]), r["rc"]),
                                     "call #%d of the output phase (%s); completed calls: %s" % (j, " ".join(dops[min(j, len(dops) - 1)][:2]), "".join(t[0] for t in got))))
     # ---- negative controls: each non-atomic writer must be flagged by the model on its trace AND by a real kill
